@@ -10,6 +10,14 @@ Checked per step of a session:
         same invocation numbers, same ok/err, same invocation counts;
   (iii) partition operations on the positions array == the Partition model (with the repartition guard);
         the pinned model (without it) must predict an out-of-bounds read exactly where the implementation crashes.
+  (iv)  derived objects: the array result of a step (a field / a list of fields / a slice / a carry of the virtual
+        array, possibly a lazier VirtualArray that carries what it cached when it was made) stays alive in the driver
+        and is the target of later steps `(on I ...)`, across evictions and generations.  What such an object says about
+        itself without being asked for elements (length, purelist_depth, minmax_depth, branch_depth, purelist_isregular,
+        numfields / keys / fieldindex / haskey, type string) and the operations that dispatch on those answers (reduce
+        along non-negative and negative axes, num / flatten / localindex, getitem with several items) are compared with
+        the same question to the same derivation of the eager array.  On the model side a (quiet) derivation from a root
+        VirtualArray is an SPeek step (no array() call), and every question answered by form(true) is a form_q step.
 """
 import os
 import re
@@ -26,14 +34,23 @@ THEOREMS = ['cache_coherent', 'virtual_transparent', 'generator_called_lazily', 
 COQ_DIR = os.path.join(C.VERIF, 'c18', 'coq')
 COQ_LOGICAL = '-R %s/coq AwkV -R . AwkVirt' % C.VERIF
 NEEDS_SAN = True
+DRIVERS = ('virtdrv',)
 RULE = ('virt sessions: value-first random layout (all node classes) with 1-2 non-nested nodes replaced by a '
         'VirtualArray; generator script per invocation (ok / throws / short payload / payload of another form), '
         'declared length (none / true / too large / too small) and form (none / right / wrong); cache none / keep / '
-        'evict-always / broken / evicting before random accesses; 1-6 steps (25 operations incl. lazy results '
-        'operated on later, explicit evict / break events). part sessions: random layout of length 0-6 split into '
-        '1-4 partitions (empty ones at start / middle / end), 1-5 steps of at / range with step / narrow / '
+        'evict-always / broken / evicting before random accesses; 1-6 steps (28 operations incl. obs = everything the '
+        'array says about itself, keys; lazy results operated on later with operations chosen for their type, explicit '
+        'evict / break events). vrec sessions (twice as many): a RECORD array whose fields differ in depth (a flat field '
+        'next to a list-typed one, a third of any type incl. nested records; sometimes below a list / option or inside an '
+        'outer record; tuples) behind one VirtualArray (the root, sometimes the record node), length none / true, form '
+        'none / right, script o / t o / o t o, 2-9 steps: derivations (field, fields, range, carry, lazycarry, one-item '
+        'getitem; 60% not dumped, so they stay lazy) from the array at every stage of its life (never generated, cached, '
+        'evicted, form declared / inferred) and from earlier derived objects, observations (obs, depth, keys, type, len) '
+        'and dispatching operations (reduce at axes >= 0 and < 0, num, flatten, localindex, multi-item getitem, ...) on '
+        'the derived objects, cache events in between. part sessions: random layout of length 0-11 split into '
+        '1-4 partitions (empty ones at start / middle / end), 1-5 steps of at / range with step -3..3 / narrow / '
         'partitionid_index_at / tojson / len / repartition to 1-5 targets incl. empty and trailing empty ones. '
-        'non-trivial = virt: >= 1 generator invocation and >= 1 successful step; part: >= 2 partitions and '
+        'non-trivial = virt: >= 1 generator invocation and >= 2 successful steps; part: >= 2 partitions and '
         'length >= 1. distinct by session text.')
 ASSUMPTIONS = [
     'C++ half only: src/awkward/partition.py and src/python/virtual.cpp (PyArrayGenerator, PyArrayCache) cannot run here; '
@@ -50,6 +67,16 @@ ASSUMPTIONS = [
     'than -1 or over missing values (undefined numbers: a C06 finding), operations on the result of the internal carry, '
     'ellipsis/newaxis over records (RecordArray::getitem_next and IndexedArray<RecordArray> disagree in the eager code)',
     'a std::runtime_error of the eager operation (the library reporting its own inconsistency) ends the comparison of that step',
+    'derived objects (check iv) are an implementation-only metamorphic comparison (virtual object vs the same derivation of '
+    'the eager array, same driver process): the depth information a lazy VirtualArray caches (cache_depths_) and '
+    'SliceGenerator are not in the Rocq model; the model side only replays their generator / cache calls, a quiet '
+    'derivation from a root VirtualArray as SPeek (never array()), depth / keys / type questions to a root VirtualArray as form_q',
+    'the Form of a derived object is compared through everything it answers (type string, depths, regularity, fields), '
+    'not node class by node class: slicing the eager array itself yields other node classes for the same values '
+    '(IndexedArray over RecordArray where the materialised lazy slice is a RecordArray); conformance of the two Forms '
+    '(Form::equal in compatibility mode) is only counted in the evidence (node_classes_differ)',
+    'not generated on the carry of an array containing records: reduce / sort (IndexedArray over a RecordArray whose fields '
+    'differ in depth raises \'reduce_next with unbranching depth > negaxis ...\' in the eager code itself), multi-item getitem',
 ]
 TRUSTED_BASE = [
     'Rocq kernel: coqc 8.16.1 (vm_compute used in examples and in repartition_refuted; native_compute not used)',
@@ -127,6 +154,75 @@ def rec_fields(t):
     return []
 
 
+def deep_fields(t):
+    """field names reachable by getitem_field: of a record, or of the records below lists / options"""
+    while t[0] in ('opt', 'list'):
+        t = t[1]
+    if t[0] == 'rec':
+        return [str(i) for i in range(len(t[1]))] if t[2] else [nm for nm, _ in t[1]]
+    return []
+
+
+def map_rec(t, f):
+    """the type with the record below lists / options replaced by f(record type)"""
+    if t[0] in ('opt', 'list'):
+        return (t[0], map_rec(t[1], f))
+    return f(t)
+
+
+def field_type(t, key):
+    def pick(r):
+        if r[2]:
+            return r[1][int(key)][1]
+        return dict(r[1])[key]
+    return map_rec(t, pick)
+
+
+def fields_type(t, keys):
+    def pick(r):
+        if r[2]:
+            return ('rec', [(str(j), r[1][int(k)][1]) for j, k in enumerate(keys)], False)
+        d = dict(r[1])
+        return ('rec', [(k, d[k]) for k in keys], False)
+    return map_rec(t, pick)
+
+
+def range_len(n, a, b):
+    lo = 0 if a == 'none' else (a + n if a < 0 else a)
+    hi = n if b == 'none' else (b + n if b < 0 else b)
+    lo, hi = min(max(lo, 0), n), min(max(hi, 0), n)
+    return max(hi - lo, 0)
+
+
+def derived(op, t, n, how='root'):
+    """(type, length, how) of the array result of `op` on an array of type t and length n, when the harness can tell
+    (it only steers the choice of later operations on that result; the verdict never depends on it)"""
+    if t is None:
+        return None
+    h = op[0]
+    try:
+        if h == 'field':
+            return (field_type(t, op[1]), n, 'field')
+        if h == 'fields':
+            return (fields_type(t, op[1]), n, 'fields')
+        if h == 'range':
+            return (t, range_len(n, op[1], op[2]), 'range')
+        if h in ('carry', 'lazycarry'):
+            return (t, len(op[1]), 'carry')
+        if h == 'materialize':
+            return (t, n, how)      # (the very same object)
+        if h == 'getitem' and len(op[1]) == 1:
+            it = op[1][0]
+            if isinstance(it, list) and it[0] == 'fld':
+                return (field_type(t, it[1]), n, 'field')
+            if isinstance(it, list) and it[0] == 'rng' and it[3] in ('none', 1):
+                # (below an eager node getitem goes through carry: IndexedArray over the records, like a carry)
+                return (t, range_len(n, it[1], it[2]), 'carry')
+    except (KeyError, IndexError, ValueError, TypeError):
+        return None
+    return None
+
+
 def gen_slice(rng, t, n):
     items = []
     has_rec = G.has_kind(t, 'rec')
@@ -149,19 +245,20 @@ def gen_slice(rng, t, n):
             k = rng.choice([0, 1, 2, 3])
             items.append(['arr', [k], [rng.randint(-n, max(n - 1, 0)) for _ in range(k)]])
         else:
-            fs = rec_fields(t)
+            fs = deep_fields(t) if not items else rec_fields(t)
             items.append(['fld', rng.choice(fs)] if fs else ['at', 0])
     return items
 
 
-def gen_op(rng, t, n, generic=False):
-    """one operation (list form); generic = the input is an earlier result of unknown type"""
+def gen_op(rng, t, n, generic=False, only=None):
+    """one operation (list form); generic = the input is an earlier result of unknown type; only = the operation
+    names to choose from"""
     def ax():
         return rng.choice([0, 1, -1, 1, 2]) if generic else G.pick_axis(rng, t)
     names = ['len', 'valid', 'tojson', 'type', 'depth', 'num', 'flatten', 'localindex', 'getitem', 'getitem',
              'at', 'range', 'range', 'carry', 'reduce', 'sort', 'argsort', 'combinations', 'rpad', 'rpadclip',
-             'materialize', 'field', 'fields', 'simplify', 'lazycarry']
-    c = rng.choice(names)
+             'materialize', 'field', 'fields', 'simplify', 'lazycarry', 'obs', 'obs', 'keys']
+    c = rng.choice(only or names)
     if c in ('sort', 'argsort') and G.has_kind(t, 'rec'):
         c = 'reduce'            # sort over records is not a defined operation in this tree (erratic eager results)
     if c == 'argsort' and (generic or G.has_kind(t, 'opt')):
@@ -169,14 +266,14 @@ def gen_op(rng, t, n, generic=False):
     if generic and c in ('carry', 'lazycarry'):
         c = 'materialize'       # carry is an internal operation whose indices must be in range of an unknown length
     if c in ('field', 'fields'):
-        fs = rec_fields(t) if not generic else []
+        fs = deep_fields(t) if not generic else []
         if not fs:
             c = 'materialize'
         elif c == 'field':
             return ['field', rng.choice(fs)]
         else:
             return ['fields', rng.sample(fs, rng.randint(1, len(fs)))]
-    if c in ('len', 'valid', 'tojson', 'type', 'depth', 'materialize', 'simplify'):
+    if c in ('len', 'valid', 'tojson', 'type', 'depth', 'materialize', 'simplify', 'obs', 'keys', 'form'):
         return [c]
     if c in ('num', 'flatten', 'localindex'):
         return [c, ax()]
@@ -269,9 +366,34 @@ def gen_virt(rng, i):
         decls.append([dlen, form])
         scripts.append(script)
         meta_w.append(dict(path=list(path), lenkind=lenkind, form=form, script=script, root=(len(path) == 0)))
+    steps = gen_steps(rng, t, n, cache, rng.randint(1, 6), p_on=0.3, p_quiet=0.2)
+    line = '(v%d virt (layout %s) (wrap %s) (gen %s) (cache %s) (declare %s) (ops %s))' % (
+        i, G.sx(lay), ' '.join(G.sx(list(p)) for p, _ in wraps), ' '.join(G.sx(s) for s in scripts),
+        G.sx(cache_sx), ' '.join(G.sx(d) for d in decls), ' '.join(G.sx(s) for s in steps))
+    tags = dict(kind='virt', cache=cache, nwraps=len(wraps), root=meta_w[0]['root'],
+                lenkind=meta_w[0]['lenkind'], form=meta_w[0]['form'])
+    return C.Case('v%d' % i, 'virt', [line], [], dict(tags=tags, wraps=meta_w, cache=cache, steps=steps))
+
+
+# operations on a derived object (a field / a slice / a carry of the array, kept alive since the step that made it):
+# what it says about itself, and the operations whose dispatch consults those answers
+ON_DERIVED = ['obs', 'obs', 'obs', 'depth', 'keys', 'type', 'len', 'reduce', 'reduce', 'reduce', 'num', 'flatten',
+              'localindex', 'getitem', 'getitem', 'tojson', 'materialize', 'field', 'fields', 'range', 'lazycarry',
+              'at', 'combinations', 'rpad', 'sort']
+# (the eager carry is IndexedArray-over-RecordArray where the virtual one is a RecordArray: the multi-item getitem of
+#  the two differs in the eager code itself, see ASSUMPTIONS; everything else is asked of a carry as well)
+ON_CARRY = [c for c in ON_DERIVED if c not in ('getitem', 'field', 'fields', 'range', 'lazycarry', 'combinations', 'rpad', 'sort')]
+# (reduce / sort of an IndexedArray over a RecordArray whose fields differ in depth raises in the eager code itself:
+#  "reduce_next with unbranching depth > negaxis ... instead, it returned RecordArray")
+ON_CARRY_REC = [c for c in ON_CARRY if c != 'reduce']
+DERIVE = ['field', 'field', 'field', 'fields', 'range', 'lazycarry', 'carry', 'getitem']
+
+
+def gen_steps(rng, t, n, cache, nsteps, p_on, p_quiet, p_derive=0.0):
+    """a history: operations on the array and on the results of earlier steps, cache events in between.
+    known[k] = (type, length, how) of the array result of step k when the harness can tell, else None."""
     steps = []
-    arr_steps = []
-    nsteps = rng.randint(1, 6)
+    known = {}
     for k in range(nsteps):
         r = rng.random()
         if cache != 'none' and r < 0.14:
@@ -281,23 +403,94 @@ def gen_virt(rng, i):
             steps.append(['break'])
             continue
         on = None
-        if arr_steps and rng.random() < 0.25:
-            on = rng.choice(arr_steps)
-        op = gen_op(rng, t, n, generic=on is not None)
+        if known and rng.random() < p_on:
+            on = rng.choice(sorted(known))
+        src = known[on] if on is not None else (t, n, 'root')
+        if src is None:
+            op = gen_op(rng, t, n, generic=True)
+        elif on is not None:
+            only = ON_DERIVED
+            if src[2] == 'carry':
+                only = ON_CARRY_REC if G.has_kind(src[0], 'rec') else ON_CARRY
+            op = gen_op(rng, src[0], src[1], only=only)
+        elif rng.random() < p_derive:
+            op = gen_op(rng, t, n, only=DERIVE)
+            if op[0] == 'getitem':
+                # a single item: the branch of VirtualArray::getitem that answers lazily
+                fs = deep_fields(t)
+                op = ['getitem', [rng.choice([['fld', rng.choice(fs)] if fs else ['rng', 0, 'none', 1],
+                                              ['rng', rng.randint(0, n), rng.choice(['none', rng.randint(0, n + 1)]), 1]])]]
+        else:
+            op = gen_op(rng, t, n)
         st = []
-        if op[0] in ARRAY_OPS and rng.random() < 0.15:
+        if op[0] in ARRAY_OPS and rng.random() < p_quiet:
             st.append('quiet')
         if on is not None:
             st += ['on', on]
-        if op[0] in ARRAY_OPS and op[0] not in ('carry', 'lazycarry'):
-            arr_steps.append(k)      # (results of the internal carry are not operated on: ix-over-record vs record)
+        if op[0] in ARRAY_OPS:
+            known[k] = derived(op, src[0], src[1], src[2]) if src is not None else None
         steps.append(st + op)
-    line = '(v%d virt (layout %s) (wrap %s) (gen %s) (cache %s) (declare %s) (ops %s))' % (
-        i, G.sx(lay), ' '.join(G.sx(list(p)) for p, _ in wraps), ' '.join(G.sx(s) for s in scripts),
-        G.sx(cache_sx), ' '.join(G.sx(d) for d in decls), ' '.join(G.sx(s) for s in steps))
-    tags = dict(kind='virt', cache=cache, nwraps=len(wraps), root=meta_w[0]['root'],
-                lenkind=meta_w[0]['lenkind'], form=meta_w[0]['form'])
-    return C.Case('v%d' % i, 'virt', [line], [], dict(tags=tags, wraps=meta_w, cache=cache, steps=steps))
+    return steps
+
+
+def gen_rec_type(rng):
+    """a record type whose fields differ in depth: a flat field next to a list-typed one (and a third of any type,
+    nested records included); sometimes below a list / an option, or itself a field of an outer record"""
+    nf = rng.choice([2, 2, 3])
+    names = rng.sample(['a', 'b', 'c', 'x', 'y', 'pt'], nf)
+    flat = ('leaf', rng.choice(['int64', 'int64', 'float64', 'bool', 'int32']))
+    inner = G.gen_type(rng, rng.choice([0, 0, 1]), allow_union=False, allow_str=False)
+    fts = [flat, ('list', inner)]
+    if nf == 3:
+        fts.append(G.gen_type(rng, 2, allow_union=rng.random() < 0.3, allow_str=rng.random() < 0.3))
+    rng.shuffle(fts)
+    rec = ('rec', list(zip(names, fts)), rng.random() < 0.12)
+    r = rng.random()
+    if r < 0.55:
+        return rec
+    if r < 0.75:
+        return ('list', rec)
+    if r < 0.85:
+        return ('opt', rec)
+    outer = rng.sample(['p', 'q', 'r'], 2)
+    return ('rec', [(outer[0], rec), (outer[1], ('leaf', 'int64'))] if rng.random() < 0.5 else
+            [(outer[1], ('list', ('leaf', 'float64'))), (outer[0], rec)], False)
+
+
+def gen_vrec(rng, i):
+    """histories about derived objects: a virtual RECORD array (fields of different depths); fields / lists of fields /
+    slices / carries are taken at every stage of the life of the array (never generated, generated and cached,
+    evicted; form declared or inferred by an earlier generation) and stay alive; later steps ask them about
+    themselves and run the operations that dispatch on those answers"""
+    t = gen_rec_type(rng)
+    n = rng.choice([1, 2, 3, 3, 4])
+    vals = [G.gen_value(rng, t, 4, False) for _ in range(n)]
+    if hasattr(G, 'rectangularise'):
+        vals = G.rectangularise(rng, t, vals)
+    enc = G.Enc(rng, special=False, opt_kinds=('ixo', 'bym', 'unm', 'ixo', 'bym', 'unm', 'bim'))
+    lay = G.encode(enc, t, vals)
+    cands = [((), lay)]
+    for path, node in G.nodes(lay):
+        if path and node[0] == 'rec':
+            parent = lay
+            for p in path[:-1]:
+                parent = parent[p]
+            if parent[0] != 'par':
+                cands.append((path, node))
+    path, node = cands[0] if rng.random() < 0.75 else rng.choice(cands)
+    cache = rng.choice(['none', 'none', 'keep', 'keep', 'keep', 'evict-always', 'flaky', 'flaky', 'broken'])
+    cache_sx = ['flaky'] + sorted(set(rng.randint(1, 14) for _ in range(rng.choice([1, 2, 3])))) if cache == 'flaky' else cache
+    ln = G.child_len(node)
+    lenkind = 'none' if (ln is None or rng.random() < 0.3) else 'true'
+    form = rng.choice(['none', 'none', 'ok', 'ok', 'ok'])
+    script = rng.choice([['o'], ['o'], ['o'], ['o'], ['t', 'o'], ['o', 't', 'o']])
+    steps = gen_steps(rng, t, n, cache, rng.randint(2, 9), p_on=0.55, p_quiet=0.6, p_derive=0.7)
+    line = '(w%d virt (layout %s) (wrap %s) (gen %s) (cache %s) (declare %s) (ops %s))' % (
+        i, G.sx(lay), G.sx(list(path)), G.sx(script), G.sx(cache_sx), G.sx([ln if lenkind == 'true' else 'none', form]),
+        ' '.join(G.sx(s) for s in steps))
+    mw = [dict(path=list(path), lenkind=lenkind, form=form, script=script, root=(len(path) == 0))]
+    tags = dict(kind='vrec', cache=cache, nwraps=1, root=mw[0]['root'], lenkind=lenkind, form=form)
+    return C.Case('w%d' % i, 'virt', [line], [], dict(tags=tags, wraps=mw, cache=cache, steps=steps))
 
 
 def gen_stops(rng, n, kmax):
@@ -312,7 +505,7 @@ def trailing_empty(target, total):
 
 
 def gen_part(rng, i):
-    a = G.gen_array(rng, depth=rng.choice([1, 2, 2, 3]), toplen=rng.choice([0, 1, 2, 3, 4, 5, 6]), canonical_too=False)
+    a = G.gen_array(rng, depth=rng.choice([1, 2, 2, 3]), toplen=rng.choice([0, 1, 2, 3, 4, 5, 6, 6, 8, 11]), canonical_too=False)
     lay, n = a['layout'], len(a['vals'])
     stops = gen_stops(rng, n, 4)
     steps = []
@@ -325,7 +518,7 @@ def gen_part(rng, i):
             steps.append(['at', rng.randint(-cur_n - 1, cur_n)])
         elif c in ('range', 'narrow'):
             b = lambda: rng.choice(['none', rng.randint(-cur_n - 2, cur_n + 2)])
-            step = rng.choice(['none', 1, 1, 1, 2, 3, -1, -1, -2])
+            step = rng.choice(['none', 1, 1, 1, 2, 3, -1, -1, -2, -2, -3])
             if c == 'narrow':
                 if k == nsteps - 1:
                     c = 'range'
@@ -448,9 +641,10 @@ def replay_cases(path, prefix='r'):
 
 
 def cases(rng, tier):
-    nv, npart = (1000, 500) if tier == 'quick' else (20000, 10000)
+    nv, npart = (1000, 2000) if tier == 'quick' else (20000, 20000)
     out = corpus_cases()
     out += [gen_virt(rng, i) for i in range(nv)]
+    out += [gen_vrec(rng, i) for i in range(2 * nv)]
     out += [gen_part(rng, i) for i in range(npart)]
     out += [gen_malformed(rng, i) for i in range(12 if tier == 'quick' else 60)]
     return out
@@ -473,6 +667,28 @@ def run_virtrun(lines):
         if m:
             out[m.group(1)] = ol[len(m.group(1)) + 2:-1]
     return out
+
+
+def under_option(session, wraps, heads=('ixo', 'bym', 'bim', 'unm')):
+    """is some wrapped node the direct content of an option node (of a node that calls simplify_optiontype)?"""
+    lay = fld(session, 'layout')[1]
+    for w in wraps:
+        node = lay
+        for p in w['path'][:-1]:
+            node = node[p]
+        if w['path'] and node[0] in heads:
+            return True
+    return False
+
+
+def hidden_from_simplify(session, wraps, tv, te):
+    """the type difference that simplify_optiontype leaves when it cannot see that its content (a VirtualArray) is an
+    option / indexed array: an option of an option, or (UnmaskedArray over an IndexedArray) an option the eager
+    array drops -- the same type up to option markers"""
+    if double_option(tv) and not double_option(te):
+        return True
+    norm = lambda ts: re.sub(r'\?|option\[|\]', '', ts)
+    return tv != te and norm(tv) == norm(te) and under_option(session, wraps)
 
 
 def under_union(session, wraps):
@@ -507,6 +723,25 @@ def model_outcomes(w, lenient):
     return out
 
 
+def peek_only(st_in, w):
+    """a (quiet) step on the root VirtualArray that VirtualArray answers with a lazier VirtualArray or from the
+    cache (peek_array), never through array(): getitem_field / getitem_fields always; getitem_range, carry and a
+    one-item getitem with a range when the length is declared (otherwise length() materialises)"""
+    if 'on' in st_in[:2]:
+        return False
+    op = op_name(st_in)
+    args = st_in[st_in.index(op) + 1:]
+    if op in ('field', 'fields'):
+        return True
+    if op == 'getitem' and len(args[0]) == 1 and isinstance(args[0][0], list) and args[0][0][0] == 'fld':
+        return True
+    if w['lenkind'] == 'none':
+        return False
+    if op in ('range', 'carry', 'lazycarry'):
+        return True
+    return False
+
+
 def virtm_line(c, steps_out, lenient, tag):
     m = c.meta
     wr = []
@@ -522,8 +757,10 @@ def virtm_line(c, steps_out, lenient, tag):
             kind = 'event'
         elif single_root and head == 'len':
             kind = 'len'
-        elif single_root and head == 'type':
-            kind = 'type'
+        elif single_root and head in ('type', 'depth', 'keys', 'form'):
+            kind = 'type'      # answered by form(true): from the declared / inferred Form when there is one
+        elif single_root and head == 'quiet' and peek_only(st_in, m['wraps'][0]):
+            kind = 'peek'      # the result is not dumped: making it must not have materialised anything
         else:
             kind = 'op'
         sts.append('(%s%s)' % (kind, ''.join(' ' + t for t in toks)))
@@ -549,6 +786,54 @@ def same_json(a, b):
         return json.loads(''.join(chr(int(x)) for x in a)) == json.loads(''.join(chr(int(x)) for x in b))
     except (ValueError, TypeError):
         return False
+
+
+OBSERVATIONS = ('obs', 'depth', 'keys', 'form')
+PART_NAMES = dict(depth='(purelist_depth minmax_depth branch_depth purelist_isregular)', len='length', type='type',
+                  keys='numfields/keys/fieldindex/haskey', form='Form conforms to the eager Form')
+
+
+def double_option(ts):
+    """an option of an option in a type string: what simplify_optiontype leaves when the content is hidden in a
+    VirtualArray (the eager array never has one)"""
+    return re.search(r'\?\?|\?option\[|option\[\?|option\[option\[', ts) is not None
+
+
+def op_name(st_in):
+    """the operation of a step (after quiet / on I)"""
+    j = 0
+    if st_in[j] == 'quiet':
+        j += 1
+    if st_in[j] == 'on':
+        j += 2
+    return st_in[j]
+
+
+def show_part(name, x):
+    if name == 'type' and isinstance(x, list):
+        try:
+            return '"' + ''.join(chr(int(ch)) for ch in x) + '"'
+        except (ValueError, TypeError):
+            pass
+    return unparse(x)
+
+
+def obs_diff(opname, vt, et):
+    """[(what, virtual answer, eager answer)] for the observations that differ"""
+    if opname == 'form':
+        return []
+    if opname != 'obs':
+        return [] if vt == et else [(PART_NAMES.get(opname, opname), show_part(opname, vt), show_part(opname, et))]
+    out = []
+    if not (isinstance(vt, list) and isinstance(et, list)):
+        return [('obs', unparse(vt), unparse(et))]
+    for name in ('len', 'depth', 'keys', 'type'):
+        # ((form 0|1): whether the node classes conform as well -- not promised, see ASSUMPTIONS; counted only)
+        a, b = fld(vt, name), fld(et, name)
+        if a != b:
+            out.append((name if name == 'type' else PART_NAMES[name] if name != 'len' else 'length',
+                        show_part(name, a[1] if a and len(a) == 2 else a), show_part(name, b[1] if b and len(b) == 2 else b)))
+    return out
 
 
 def np_ints(d):
@@ -653,7 +938,8 @@ def run(cases, tier, rng):
     samples = []
     distinct = set()
     evaluations = 0
-    info = dict(eager_crashes=0, malformed={}, long_sessions=0, lazy_checked=0, model_steps=0, value_walks=0)
+    info = dict(eager_crashes=0, malformed={}, long_sessions=0, lazy_checked=0, model_steps=0, value_walks=0, observations=0,
+                observations_on_derived=0)
     corr = {'corr:virtual==eager': True, 'corr:trace-is-a-model-run': True, 'corr:invocation-counts': True,
             'corr:declared-queries-do-not-generate': True, 'corr:partitioned==eager': True,
             'corr:partition-model(positions)': True, 'corr:pinned-model-predicts-crash': True}
@@ -888,6 +1174,10 @@ def run(cases, tier, rng):
                     sig = None
                     if v[2] == 'value' and under_union(parse(line), m['wraps']):
                         sig = UNION_SIG
+                    elif v[2] == 'runtime' and under_option(parse(line), m['wraps'], ('ix', 'ixo', 'bym', 'bim', 'unm')):
+                        # IndexedArray / option node over a VirtualArray whose payload is an option: left unsimplified
+                        # (IndexedArray over IndexedOptionArray), on which sort / reduce report an internal inconsistency
+                        sig = UNION_SIG
                     elif v[2] == 'value' and '(bim ' in line:
                         sig = BITMASK_SIG
                     bump('viol')
@@ -897,17 +1187,39 @@ def run(cases, tier, rng):
                     break
                 nok += 1
                 if v[1] == 'build' or v[2] == '=' or v[2] == 'lazy':
+                    if v[1] != 'build' and op_name(st_in) in OBSERVATIONS:
+                        info['observations'] += 1
+                        info['observations_on_derived'] += 1 if 'on' in st_in[:2] else 0
                     continue
 
                 veq = fld(so, 'veq')
                 info['value_walks'] += 1
+                opname = op_name(st_in)
+                if opname in OBSERVATIONS:
+                    info['observations'] += 1
+                    info['observations_on_derived'] += 1 if 'on' in st_in[:2] else 0
+                    diffs = obs_diff(opname, v[2], e[2])
+                    if (opname == 'form' and v[2] != e[2]) or (opname == 'obs' and isinstance(v[2], list) and fld(v[2], 'form') != fld(e[2], 'form')):
+                        info['node_classes_differ'] = info.get('node_classes_differ', 0) + 1
+                    if not diffs:
+                        continue
+                    sig = None
+                    if all(d[0] == 'type' and hidden_from_simplify(parse(line), m['wraps'], d[1], d[2]) for d in diffs):
+                        sig = UNION_SIG
+                    bump('viol')
+                    add('viol', 'step %d %s: %s answers %s' % (
+                        k, unparse(st_in), 'the object made by step %d (%s)' % (st_in[st_in.index('on') + 1], unparse(
+                            steps_in[st_in[st_in.index('on') + 1] + 1])) if 'on' in st_in[:2] else 'the virtual array',
+                        '; '.join('%s = %s where the eager array answers %s' % d for d in diffs)[:900]),
+                        c, [line, '# driver: ' + r[:1500]], sig, obl='corr:virtual==eager')
+                    break
                 if 'type' in st_in and not isinstance(v[2], str):
                     tv = ''.join(chr(int(x)) for x in v[2])
                     te = ''.join(chr(int(x)) for x in e[2])
                     if tv != te:
                         bump('viol')
                         add('viol', 'step %d %s: type of the virtual array "%s", of the eager array "%s"' % (k, unparse(st_in), tv, te),
-                            c, [line, '# driver: ' + r[:1500]], UNION_SIG if '??' in tv else None, obl='corr:virtual==eager')
+                            c, [line, '# driver: ' + r[:1500]], UNION_SIG if hidden_from_simplify(parse(line), m['wraps'], tv, te) else None, obl='corr:virtual==eager')
                         break
                     continue
                 if veq is not None and veq[1] == '1':
@@ -944,6 +1256,7 @@ def run(cases, tier, rng):
         msteps = parse('(' + mr[3:] + ')')
         ok_session = True
         repartitioned = False
+        pending_model = None
         for k, (st_in, so) in enumerate(zip(c.meta['steps'], steps_out)):
             p, e, q, es = fld(so, 'p'), fld(so, 'e'), fld(so, 'q'), fld(so, 'es')
             if st_in[0] == 'repartition':
@@ -956,12 +1269,11 @@ def run(cases, tier, rng):
                 break
             # (iii) positions run vs model
             if (q[1] == 'ok') != (mm[1] == 'ok') or (q[1] == 'ok' and mm[2] != 'na' and q_value(q[2]) != m_value(mm[2])):
-                bump('modeldiff')
-                add('modeldiff', 'correspondence corr:partition-model(positions) broken at step %d %s: implementation %s model %s' %
-                    (k, unparse(st_in), unparse(q)[:300], unparse(mm)[:300]), c, [line, '# driver: ' + r[:1500], '# model: ' + mr[:800]],
-                    no_input=True, obl='corr:partition-model(positions)')
-                ok_session = False
-                break
+                # (reported after the session, unless the partitioned array also differs from the eager one -- (i) below --
+                #  which is a concrete failing input for the property itself)
+                if pending_model is None:
+                    pending_model = ('correspondence corr:partition-model(positions) broken at step %d %s: implementation %s model %s' %
+                                     (k, unparse(st_in), unparse(q)[:300], unparse(mm)[:300]))
             if pin is not None and pin[1:] == ['err', 'oob'] and p[1] == 'ok':
                 # the pinned model reads out of bounds but the implementation survived: either it was fixed (fine: it
                 # agrees with the guarded model above) or the read went unnoticed (std build)
@@ -1030,6 +1342,11 @@ def run(cases, tier, rng):
                         c, [line, '# driver: ' + r[:1500]], obl='corr:partitioned==eager')
                     ok_session = False
                     break
+        if ok_session and pending_model is not None:
+            bump('modeldiff')
+            add('modeldiff', pending_model, c, [line, '# driver: ' + r[:1500], '# model: ' + mr[:800]],
+                no_input=True, obl='corr:partition-model(positions)')
+            ok_session = False
         if ok_session:
             bump('agree')
             if len(c.meta['stops']) >= 2 and c.meta['n'] >= 1:
